@@ -52,6 +52,10 @@ type Conn struct {
 	Writes   int
 	Closes   int
 	ClosedAt int // len(Out) at first Close
+	// EndSeenAtClose: the end of the stream (EOF / reset) had already been reported to
+	// the reader when Close was first called - the connection ended because the client
+	// was done, not because the server gave up on it.
+	EndSeenAtClose bool
 	// OnStarve is called when a Read asks for bytes although the whole input
 	// has been delivered already (the moment liveness is judged), and before
 	// every Read with the number of bytes delivered so far.
@@ -161,6 +165,7 @@ func (c *Conn) Close() error {
 	c.Closes++
 	if c.Closes == 1 {
 		c.ClosedAt = len(c.Out)
+		c.EndSeenAtClose = c.ended
 		if c.S.CloseErr {
 			return errors.New("tls: failed to send closeNotify alert (but connection was closed anyway): write: broken pipe")
 		}
